@@ -1,4 +1,5 @@
 """TAB — tables extracted from MIR (never from text)."""
+import re
 from .facts import callee_of, place_is_local, expr_str
 from . import kit
 
@@ -70,17 +71,69 @@ def enum_const_table(prog, fn, adt):
 CHAR_DOMAIN = list(range(0, 0x300)) + [0x20AC, 0x212A, 0xFF10, 0x1F600]
 
 
-def char_pred_set(prog, name, domain=None):
-    """{code points c of the finite domain | the char -> bool function / closure `name` returns true on c}, from its decision structure"""
+_WS = set(range(9, 14)) | {0x20, 0x85, 0xA0, 0x1680, 0x2028, 0x2029, 0x202F, 0x205F, 0x3000} | set(range(0x2000, 0x200B))
+
+
+def _b(x):
+    return 1 if x else 0
+
+
+CHAR_METHODS = {
+    "is_ascii_whitespace": lambda c: _b(c in (0x20, 0x09, 0x0A, 0x0C, 0x0D)),
+    "is_whitespace": lambda c: _b(c in _WS),
+    "is_ascii_digit": lambda c: _b(48 <= c <= 57),
+    "is_ascii_hexdigit": lambda c: _b(48 <= c <= 57 or 65 <= c <= 70 or 97 <= c <= 102),
+    "is_ascii_alphabetic": lambda c: _b(65 <= c <= 90 or 97 <= c <= 122),
+    "is_ascii_alphanumeric": lambda c: _b(48 <= c <= 57 or 65 <= c <= 90 or 97 <= c <= 122),
+    "is_ascii_uppercase": lambda c: _b(65 <= c <= 90),
+    "is_ascii_lowercase": lambda c: _b(97 <= c <= 122),
+    "is_ascii_punctuation": lambda c: _b(33 <= c <= 47 or 58 <= c <= 64 or 91 <= c <= 96 or 123 <= c <= 126),
+    "is_ascii_graphic": lambda c: _b(33 <= c <= 126),
+    "is_ascii_control": lambda c: _b(c < 32 or c == 127),
+    "is_ascii": lambda c: _b(c < 128),
+    "is_control": lambda c: _b(c < 32 or 127 <= c < 160),
+    "is_alphabetic": lambda c: _b(chr(c).isalpha()),
+    "is_alphanumeric": lambda c: _b(chr(c).isalnum()),
+    "is_numeric": lambda c: _b(chr(c).isnumeric()),
+}
+
+
+def _pred_calls(prog, f, stack):
+    """python stand-ins for what a char predicate calls: std char classes (trusted summaries) and other predicates of the program (read the same way)"""
+    calls = {}
+    for b, t, c in f.calls():
+        if not c:
+            continue
+        m = re.search(r"char::methods::<impl char>::(\w+)$", c)
+        if m and m.group(1) in CHAR_METHODS:
+            calls[c] = (lambda fn_: (lambda *a: fn_(a[0])))(CHAR_METHODS[m.group(1)])
+        elif c in prog.fns and c not in stack and prog.fns[c].arg_count == 1:
+            calls[c] = (lambda n_: (lambda *a: _eval_pred(prog, n_, a[0], stack + (n_,))))(c)
+    return calls
+
+
+_TREES = {}
+
+
+def _eval_pred(prog, name, c, stack=()):
     from . import formula
     f = prog.fns[name]
-    tree = formula.decision(f)
+    key = (id(prog), name)
+    if key not in _TREES:
+        _TREES[key] = (formula.decision(f), _pred_calls(prog, f, stack + (name,)))
+    tree, calls = _TREES[key]
+    env = {"args": {1: c, 2: c, "ch": c, "c": c}, "prog": prog, "calls": calls, "bool_not": True}
+    lab = formula.eval_decision(tree, env)
+    v = formula.evaluate(lab, env) if lab is not None else None
+    return 1 if v in (1, True) else (0 if v in (0, False) else v)
+
+
+def char_pred_set(prog, name, domain=None):
+    """{code points c of the finite domain | the char -> bool function / closure `name` returns true on c}, from its decision structure;
+    calls of std character classes and of other one-argument predicates of the program are followed"""
     out = set()
     for c in (domain or CHAR_DOMAIN):
-        env = {"args": {1: c, 2: c, "ch": c, "c": c}, "prog": prog}
-        lab = formula.eval_decision(tree, env)
-        v = formula.evaluate(lab, env) if lab is not None else None
-        if v in (1, True):
+        if _eval_pred(prog, name, c) == 1:
             out.add(c)
     return out
 
